@@ -16,13 +16,24 @@ Grid == IF Thorough THEN Shapes(3, 3) \cup Shapes(5, 2)
 GridSeq == SetToSeq(Grid)
 Lrs == <<Q(1, 100), Zero, Q(-1, 2), Two, Q(1, 3)>>
 Descs == MyCases(Flatten2([i \in DOMAIN GridSeq |->
-            [l \in DOMAIN Lrs |-> <<"ok", GridSeq[i], Lrs[l], l = 1>>] \o << <<"nograd", GridSeq[i], Half, FALSE>> >>]))
+            [l \in DOMAIN Lrs |-> <<"ok", GridSeq[i], Lrs[l], l = 1>>] \o << <<"nograd", GridSeq[i], Half, FALSE>>, <<"two", GridSeq[i], Q(1, 4), FALSE>> >>]))
 
 Build(d) ==
   LET inputs == <<In("w", d[2], TRUE), In("c", d[2], FALSE), In("u", d[2], d[1] = "ok")>>
       code == <<Ins("mul", NoPar, <<1, 2>>)>>
-      base == MkCase("c17", "sgd", inputs, <<"any", "any,wide,t0", "any">>, code, <<4>>, 4, FALSE)     \* t0: a gradient that is exactly zero everywhere
-  IN IF d[1] = "ok"
+      base == MkCase("c17", "sgd", inputs, <<"any", "any,wide,t0,huge", "any">>, code, <<4>>, 4, FALSE)     \* t0: a gradient that is exactly zero everywhere
+  IN IF d[1] = "two"
+     THEN (* one optimizer object, two parameters of the same shape that are the operands of ONE Add (no broadcasting): the  *)
+          (* back-propagation hands both the very same gradient tensor; each must still be updated from its own value        *)
+          LET in2 == <<In("w", d[2], TRUE), In("v", d[2], TRUE), In("c", d[2], FALSE)>>
+              code2 == <<Ins("add", NoPar, <<1, 2>>), Ins("mul", NoPar, <<4, 3>>)>>
+              g1 == GradDef(in2, code2, 5, 1)
+              g2 == GradDef(in2, code2, 5, 2)
+          IN MkCase("c17", "sgd-two", in2, <<"any", "any", "any,wide">>, code2, <<5>>, 5, FALSE)
+             @@ [post |-> <<EncIns(Ins("sgd", [k |-> d[3], nilconf |-> FALSE, inst |-> 1], <<1>>)), EncIns(Ins("sgd", [k |-> d[3], nilconf |-> FALSE, inst |-> 1], <<2>>))>>,
+                 postouts |-> <<EncT(6, SGDStep(SymT("w", d[2]), [dims |-> d[2], data |-> g1], d[3])),
+                                EncT(7, SGDStep(SymT("v", d[2]), [dims |-> d[2], data |-> g2], d[3]))>>]
+     ELSE IF d[1] = "ok"
      THEN LET g == GradDef(inputs, code, 4, 1)
               w == SymT("w", d[2])
               new == SGDStep(w, [dims |-> d[2], data |-> g], d[3])
